@@ -91,8 +91,9 @@ static void stun_summary (const guint8 *d, gsize n, char *o)
     while (off + 4 <= (int) n) { int at = d[off] << 8 | d[off + 1], al = d[off + 2] << 8 | d[off + 3];
       if (at == 0x802a) ctl = 1; if (at == 0x8029) ctl = 0; if (at == 0x0025) usec = 1; if (at == 0x0009 && al >= 4) err = (d[off + 6] & 7) * 100 + d[off + 7];
       off += 4 + ((al + 3) & ~3); }
-    sprintf (o, "stun c%d m%d tid=%s ctl=%d uc=%d err=%d", cls, m, tid, ctl, usec, err);
-  } else sprintf (o, "data len=%zu", n);
+    unsigned h = 5381; for (gsize i = 0; i < n; i++) h = (h * 33 + d[i]) & 0xffffff;      /* the hash an "rx" line would show for these bytes */
+    sprintf (o, "stun c%d m%d tid=%s ctl=%d uc=%d err=%d h=%u n=%zu", cls, m, tid, ctl, usec, err, h, n);
+  } else { unsigned h = 5381; for (gsize i = 0; i < n; i++) h = (h * 33 + d[i]) & 0xffffff; sprintf (o, "data h=%u len=%zu", h, n); }
 }
 
 static void net_send (const NiceAddress *from, const NiceAddress *to, const guint8 *d, gsize n);
@@ -429,10 +430,10 @@ static int atk_owner (const NiceAddress *a, char *uname, guint *comp)
 static const uint16_t atk_known[] = { 0x0006, 0x0008, 0x0020, 0x0024, 0x0025, 0x8029, 0x802a, 0x0009, 0 };
 static void atk_fire (void)
 {
-  static const char *names[] = { "rand", "rtp", "req-nomi", "req-wrongkey", "req-truncmi", "resp-forged", "err487-forged", "err403-forged", "indication", "req-conflict", "req-3489-bare", "resp-unmatched", "data-spoofed" };
+  static const char *names[] = { "rand", "rtp", "req-nomi", "req-wrongkey", "req-truncmi", "resp-forged", "err487-forged", "err403-forged", "indication", "req-conflict", "req-3489-bare", "resp-unmatched", "data-spoofed", "req-5389-bare" };
   guint live = 0; for (guint i = 0; i < vsocks->len; i++) { VSock *v = vsocks->pdata[i]; if (!v->closed) live++; }
   if (!live) return;
-  int kind; int guard = 0; do kind = arnd () % 13; while (!(atk_mask & (1u << kind)) && ++guard < 100);
+  int kind; int guard = 0; do kind = arnd () % 14; while (!(atk_mask & (1u << kind)) && ++guard < 100);
   VSock *tv = NULL; guint pick = arnd () % live; for (guint i = 0; i < vsocks->len; i++) { VSock *v = vsocks->pdata[i]; if (!v->closed && pick-- == 0) tv = v; }
   NiceAddress to = tv->nsock->addr, me; nice_address_init (&me); nice_address_set_from_string (&me, "10.66.0.1"); nice_address_set_port (&me, 6000 + arnd () % 4);
   guint8 buf[1500]; gsize n = 0; char uname[600] = "a:b"; guint comp = 1; int owner = atk_owner (&to, uname, &comp);
@@ -458,6 +459,13 @@ static void atk_fire (void)
       StunAgent old; stun_agent_init (&old, atk_known, STUN_COMPATIBILITY_RFC3489, 0); stun_agent_init_request (&old, &m, buf, sizeof buf, STUN_BINDING);
       if (arnd () & 1) stun_message_append32 (&m, STUN_ATTRIBUTE_PRIORITY, 0x7e0000ff);
       n = stun_agent_finish_message (&old, &m, NULL, 0); break; }
+    case 13: { /* RFC 5389 request without any credential: only attributes whose length is a multiple of 4 (reads the same with and without attribute
+                * alignment), with or without a correct FINGERPRINT - what an agent whose STUN flavour lost its credential flags would accept */
+      StunAgent pa; stun_agent_init (&pa, atk_known, STUN_COMPATIBILITY_RFC5389, (arnd () & 1) ? STUN_AGENT_USAGE_USE_FINGERPRINT : 0);
+      stun_agent_init_request (&pa, &m, buf, sizeof buf, STUN_BINDING); stun_message_append32 (&m, STUN_ATTRIBUTE_PRIORITY, 0x6e0000ff);
+      if (arnd () & 1) stun_message_append64 (&m, (arnd () & 1) ? STUN_ATTRIBUTE_ICE_CONTROLLING : STUN_ATTRIBUTE_ICE_CONTROLLED, 0x1122334455667788ULL);
+      if (arnd () % 3 == 0) stun_message_append_flag (&m, STUN_ATTRIBUTE_USE_CANDIDATE);
+      n = stun_agent_finish_message (&pa, &m, NULL, 0); break; }
     case 11: { /* a response (success or error) to a transaction nobody started: correct FINGERPRINT (needs no secret), no or junk MESSAGE-INTEGRITY */
       guint8 rq[64]; StunMessage req; StunAgent pa; stun_agent_init (&pa, atk_known, STUN_COMPATIBILITY_RFC5389, STUN_AGENT_USAGE_USE_FINGERPRINT | STUN_AGENT_USAGE_IGNORE_CREDENTIALS);
       stun_agent_init_request (&pa, &req, rq, sizeof rq, STUN_BINDING); for (int i = 8; i < 20; i++) rq[i] = arnd ();
